@@ -82,6 +82,7 @@ static void step_fail(hist_t *h, const char *op, const char *sig, const char *fm
 static void check_factor_step(hist_t *h, const char *op, int_t info, int usepr, const int_t *perm_r_in)
 {
     const slu_vt *vt = h->vt; int n = h->n; csc_q F = factored_view(h->M); char msg[400];
+    if (info > n && h->lwork > 0) step_fail(h, op, "C08:workspace_exhausted_in_history", "info=%d > n: the caller's workspace of %ld bytes (sized from the library's own query for the largest thread count) ran out at this step", (int)info, h->lwork);
     if (info < 0 || info > n) step_fail(h, op, "oracle:info_out_of_range", "info=%d", (int)info);
     if (info != 0) { ld g, mp; if (h->u >= 1.0 && ref_nonsingular(vt, &F, &g, &mp)) step_fail(h, op, "oracle:info_nonzero", "info=%d for values the reference factors without trouble (min pivot/amax %.2Le)", (int)info, mp);
         feat_add("singular_steps", 1); return; }
@@ -248,6 +249,26 @@ static void op_gssv(hist_t *h, const char *op)
     hx_free(pc); hx_free(pr); hx_free(bval); hx_free(b0); hx_free(B.Store);
 }
 
+/* caller-supplied workspace for the whole history: size = ws_factor x the library's own lwork=-1 estimate */
+static void hist_user_workspace(hist_t *h)
+{
+    double f = P_dbl("ws_factor", 0); if (f <= 0 || h->M->stype) return;
+    const slu_vt *vt = h->vt; int n = h->n; int P = (int)P_int("ws_P", 4);
+    int_t info = 0; Gstat_t gs; superlumt_options_t o; SuperMatrix AC, L, U; int_t *pc = hx_malloc(sizeof(int_t) * (n + 1)), *pr = hx_malloc(sizeof(int_t) * (n + 1));
+    memcpy(pc, h->perm_c0, sizeof(int_t) * n);
+    g_track = 1;
+    StatAlloc(n, P, g_ienv[1], g_ienv[2], &gs); StatInit(n, P, &gs);
+    vt->gstrf_init(P, DOFACT, NOTRANS, NO, g_ienv[1], g_ienv[2], 1.0, NO, 0.0, pc, pr, NULL, -1, &h->M->A, &AC, &o, &gs);
+    vt->gstrf(&o, &AC, pr, &L, &U, &gs, &info);
+    vt->finalize(&o, &AC); StatFree(&gs);
+    g_track = 0;
+    if (info <= n) verdict_skip("workspace query returned info=%d", (int)info);
+    h->lwork = (long)((double)(info - n) * f); h->lwork = (h->lwork + 15) & ~15L;
+    h->work = hx_malloc((size_t)h->lwork);
+    feat("user_workspace", (double)h->lwork);
+    hx_free(pc); hx_free(pr);
+}
+
 static void hist_init(hist_t *h)
 {
     memset(h, 0, sizeof *h);
@@ -257,6 +278,7 @@ static void hist_init(hist_t *h)
     case_order(h->M, h->perm_c0);
     features_of_matrix(h->M);
     h->u = 1.0; h->P = 1;
+    hist_user_workspace(h);
 }
 
 static void run_history(hist_t *h, int rep)
